@@ -118,56 +118,70 @@ func main() {
 	}
 	sums := map[string]*sym.Summary{}
 	var notes []string
-	for i, h := range harnesses {
-		// split the remaining budget evenly over the remaining harnesses
-		// greedy: everything that is left, minus a reserve for the harnesses
-		// still to come (but never less than an even share)
-		remain := time.Until(deadline)
-		left := time.Duration(len(harnesses) - i)
-		per := remain - (left-1)*reserve
-		if even := remain / left; per < even {
-			per = even
-		}
-		if per < 5*time.Second {
-			per = 5 * time.Second
-		}
-		s, err := e.Explore(h, sym.ExploreOpts{Workers: *workers, TimeoutMS: tmo, Portfolio: true, Deadline: time.Now().Add(per), MaxViolPer: 2, Seed: seed})
-		if err != nil {
-			notes = append(notes, h+": "+err.Error())
-			continue
-		}
-		sums[h] = s
-		fmt.Printf("harness %s: paths=%d ends=%v asserts=%d queries=%d (sat %d unsat %d unknown %d) solver=%.1fs wall=%.1fs truncated=%v\n",
-			h, s.Paths, s.Ends, s.Asserts, s.Solver.Queries, s.Solver.SatN, s.Solver.UnsatN, s.Solver.UnknownN, s.Solver.Seconds, s.Wall.Seconds(), s.Truncated)
-		type ts struct {
-			tag string
-			sec float64
-			n   int
-			unk int
-		}
-		var tl []ts
-		for k, v := range s.Solver.ByTag {
-			tl = append(tl, ts{k, v.Seconds, v.N, v.Unknown})
-		}
-		sort.Slice(tl, func(i, j int) bool { return tl[i].sec > tl[j].sec })
-		for i, t := range tl {
-			if i >= 6 || t.sec < 1 {
+	_ = reserve
+	// pass 1: an even share each; pass 2: harnesses cut short by their share
+	// are re-run (the engine-wide query cache is warm) with what is left
+	queue := append([]string(nil), harnesses...)
+	for pass := 1; pass <= 2 && len(queue) > 0; pass++ {
+		var again []string
+		for i, h := range queue {
+			remain := time.Until(deadline)
+			left := time.Duration(len(queue) - i)
+			per := remain / left
+			if pass == 2 && remain < 10*time.Second {
 				break
 			}
-			fmt.Printf("  solver-time %7.1fs n=%-5d unknown=%-3d %s\n", t.sec, t.n, t.unk, t.tag)
-		}
-		var ms []string
-		for m := range s.Msgs {
-			ms = append(ms, m)
-		}
-		sort.Strings(ms)
-		for _, m := range ms {
-			short := m
-			if len(short) > 600 {
-				short = short[:600]
+			if per < 5*time.Second {
+				per = 5 * time.Second
 			}
-			fmt.Printf("  inconclusive[%d] %s\n", s.Msgs[m], short)
+			s, err := e.Explore(h, sym.ExploreOpts{Workers: *workers, TimeoutMS: tmo, Portfolio: true, Deadline: time.Now().Add(per), MaxViolPer: 2, Seed: seed})
+			if err != nil {
+				notes = append(notes, h+": "+err.Error())
+				continue
+			}
+			if s.Truncated && pass == 1 {
+				again = append(again, h)
+			}
+			if old := sums[h]; old != nil && old.Paths > s.Paths {
+				continue // keep the larger exploration
+			}
+			sums[h] = s
+			fmt.Printf("harness %s: paths=%d ends=%v asserts=%d queries=%d (sat %d unsat %d unknown %d) solver=%.1fs wall=%.1fs truncated=%v\n",
+				h, s.Paths, s.Ends, s.Asserts, s.Solver.Queries, s.Solver.SatN, s.Solver.UnsatN, s.Solver.UnknownN, s.Solver.Seconds, s.Wall.Seconds(), s.Truncated)
+			type ts struct {
+				tag string
+				sec float64
+				n   int
+				unk int
+			}
+			var tl []ts
+			for k, v := range s.Solver.ByTag {
+				tl = append(tl, ts{k, v.Seconds, v.N, v.Unknown})
+			}
+			sort.Slice(tl, func(i, j int) bool { return tl[i].sec > tl[j].sec })
+			for i, t := range tl {
+				if i >= 6 || t.sec < 1 {
+					break
+				}
+				fmt.Printf("  solver-time %7.1fs n=%-5d unknown=%-3d %s\n", t.sec, t.n, t.unk, t.tag)
+			}
+			var ms []string
+			for m := range s.Msgs {
+				if strings.HasPrefix(m, "panic: ") {
+					continue // reported as violations
+				}
+				ms = append(ms, m)
+			}
+			sort.Strings(ms)
+			for _, m := range ms {
+				short := m
+				if len(short) > 600 {
+					short = short[:600]
+				}
+				fmt.Printf("  inconclusive[%d] %s\n", s.Msgs[m], short)
+			}
 		}
+		queue = again
 	}
 
 	// ---- write replay vectors ----
